@@ -50,6 +50,8 @@ func (c *Module) Connect(conn *sqlite.Conn, args []string,
 
 	err = declare(table.SchemaString)
 	if err != nil {
+		// s3db.New registered the table; a failed CREATE must not leave it behind
+		table.Disconnect()
 		return nil, fmt.Errorf("declare: %w", err)
 	}
 
